@@ -416,6 +416,36 @@ impl ZoneModel {
     }
 }
 
+impl ZoneModel {
+    /// What chrono's reader built, as plain data (through the accessor's structured view, so
+    /// that nothing here depends on chrono's `Debug` output).
+    pub fn from_view(v: &chrono::__verif::ZoneView) -> ZoneModel {
+        use chrono::__verif::{DayView, RuleView};
+        let ty = |t: &chrono::__verif::TypeView| LType { utoff: t.0, dst: t.1, abbr: t.2.clone().unwrap_or_default() };
+        let day = |d: &DayView| match *d {
+            DayView::Julian1(n) => Day::J1(n),
+            DayView::Julian0(n) => Day::J0(n),
+            DayView::MonthWeekday(m, w, d) => Day::M { m, w, d },
+        };
+        ZoneModel {
+            types: v.types.iter().map(ty).collect(),
+            trans: v.transitions.clone(),
+            leaps: v.leap_seconds.clone(),
+            rule: v.rule.as_ref().map(|r| match r {
+                RuleView::Fixed(t) => Rule::Fixed(ty(t)),
+                RuleView::Alternate(s, d, a, at, b, bt) => Rule::Alt(AltRule {
+                    std: ty(s),
+                    dst: ty(d),
+                    start: day(a),
+                    start_time: *at,
+                    end: day(b),
+                    end_time: *bt,
+                }),
+            }),
+        }
+    }
+}
+
 // ---------------------------------------------------------------- POSIX TZ strings: reference reader
 
 struct P<'a> {
